@@ -87,13 +87,13 @@ macro_rules! c04_gate {
 /// an error from the gate happens only at EOF, only when not AE-2 and only when the checksum
 /// really differs; zero-length reads never consume or fail; after EOF reads keep returning 0.
 /// Variant: empty stream, 3 caller reads.
-// @h prop=C04,C09 tier=quick t=600 mem=8 name=c04_gate_len0
+// @h prop=C04,C09 tier=quick t=300 mem=4 name=c04_gate_len0
 c04_gate!(c04_gate_len0, 0, 3, 4);
 /// C04 CRC gate, 1-byte stream, 4 caller reads (1-byte buffers, zero-length reads interleaved).
-// @h prop=C04,C09 tier=quick t=600 mem=8 name=c04_gate_len1
+// @h prop=C04,C09 tier=quick t=300 mem=4 name=c04_gate_len1
 c04_gate!(c04_gate_len1, 1, 4, 5);
 /// C04 CRC gate, 2-byte stream, 5 caller reads.
-// @h prop=C04,C09 tier=quick t=900 mem=10 name=c04_gate_len2
+// @h prop=C04,C09 tier=quick t=480 mem=4 name=c04_gate_len2
 c04_gate!(c04_gate_len2, 2, 5, 6);
 /// C04 CRC gate, 3-byte stream, 6 caller reads.
 // @h prop=C04,C09 tier=thorough t=1800 mem=16 name=c04_gate_len3
